@@ -274,13 +274,24 @@ def helpers(db, rep, cfg):
                f', other operations {others} (expected: a * b as field elements compared with a * b as integers)', sm.loc(), cfg)
     sd = db.fns.get('swiftness_air::layout::safe_div')
     if sd is not None and sd.has_mir:
-        T = exprtree.Trees(db, sd)
-        divs = [(t['f'].get('name'), tuple(T.operand(a) for a in t['args'])) for _, t in sd.calls()
-                if t['f'].get('name') in ('floor_div', 'field_div', 'div', 'div_rem', 'rem')]
-        ok = divs == [('floor_div', (A1, A2))]
+        divs = []
+        for body in common.bodies(db, sd):
+            T = exprtree.Trees(db, body)
+            ups = common.upvars(db, sd, body.path) if body is not sd else []
+
+            def root(t):
+                t = common.strip_ref(t)
+                if body is not sd and isinstance(t, tuple) and t[0] == 'proj' and t[1] == A1 and str(t[2]).isdigit() and int(t[2]) < len(ups):
+                    return common.strip_ref(ups[int(t[2])])
+                if body is not sd and t == A2:
+                    return ('item',)      # the element the closure is applied to (the non-zero divisor)
+                return t
+            for _, t in body.calls():
+                if t['f'].get('name') in ('floor_div', 'field_div', 'div', 'div_rem', 'rem'):
+                    divs.append((t['f'].get('name'), tuple(root(T.operand(a)) for a in t['args'])))
+        ok = len(divs) == 1 and divs[0][0] == 'floor_div' and divs[0][1][0] == A1 and divs[0][1][1] in (A2, ('item',))
         rep.ob('C14.helpers', 'safe_div', ok, f'safe_div: {[(n, tuple(exprtree.show(x) for x in a)) for n, a in divs]} (expected floor_div(value, divisor))',
                sd.loc(), cfg)
-
 
 # Cairo dynamic layout: units consumed per step / per builtin instance
 UNIT_BUDGETS = {
